@@ -503,6 +503,18 @@ func (s *Solver) fast(all []*T, wantModel bool) (Result, *Model) {
 		close(done)
 	}()
 	defer func() { <-done }()
+	// watchdog: a solver that ignores its soft timeout is killed (the read below then fails and the
+	// query is answered "unknown", which escalates it to the portfolio)
+	limit := time.Duration(s.fastMs)*time.Millisecond*4 + 10*time.Second
+	if strings.HasPrefix(s.backend, "cvc5") {
+		limit = 90 * time.Second
+	}
+	proc := s.cmd.Process
+	watchdog := time.AfterFunc(limit, func() {
+		fmt.Fprintln(os.Stderr, "solver watchdog: killing unresponsive", s.backend)
+		proc.Kill()
+	})
+	defer watchdog.Stop()
 	res := Unknown
 	sawErr := false
 	for {
